@@ -1,8 +1,7 @@
 SPECIFICATION Spec
 CONSTANTS
-  MaxU = 8
+  MaxU = 7
   Variant = "repaired"
   Measures = {"JACCARD", "COSINE", "DICE", "OVERLAP"}
-INVARIANT Safe
-INVARIANT Tight
+INVARIANT SuffixSafe
 CHECK_DEADLOCK FALSE
